@@ -163,7 +163,8 @@ def write_replay(prop, trace, violation, shrunk_from=None):
     if shrunk_from is not None:
         t["shrunk_from"] = shrunk_from
     d = core.digest(t)[:12]
-    path = os.path.join(core.VERIF_DIR, "replays", "%s-%s-%s.json" % (prop, trace.get("verif_seed", 0), d))
+    rdir = os.environ.get("XSIM_REPLAY_DIR") or os.path.join(core.VERIF_DIR, "replays")
+    path = os.path.join(rdir, "%s-%s-%s.json" % (prop, trace.get("verif_seed", 0), d))
     os.makedirs(os.path.dirname(path), exist_ok=True)
     with open(path, "w") as f:
         json.dump(t, f, indent=1, sort_keys=True)
